@@ -54,9 +54,12 @@ func (w *world) uids(metric, cond string) (string, error) {
 	return strings.Join(out, ","), nil
 }
 
-// Design defect D3, seen through a query: the flushed dictionary (TrieBucket.FindValuesByRegexp)
-// only scans the keys that start with the literal prefix of the expression, although an
-// unanchored expression may match anywhere; the in-memory dictionary uses rp.Match on every key.
+// Design defect D3 (found under C20, repaired in /repo by b27f7d4), seen through a query: the flushed
+// dictionary (TrieBucket.FindValuesByRegexp) only scanned the keys that start with the literal prefix
+// of the expression, although an unanchored expression may match anywhere; the in-memory dictionary
+// uses rp.Match on every key.
+const sigRegexPrefix = "C10/regexp-literal-prefix-unanchored-on-flushed-dictionary"
+
 func TestRegression_RegexUnanchoredAfterFlush(t *testing.T) {
 	w := newWorld(t, []models.ShardID{0}, 1)
 	defer w.close()
@@ -124,9 +127,6 @@ func TestRegression_FamilyFilterNotFoundHidesOtherPart(t *testing.T) {
 	if err != nil || got != "u0001,u0003" {
 		t.Fatalf("host in ('a','c') -> [%s] %v", got, err)
 	}
-	if ev.Known(sigWedge) {
-		return
-	}
 	w.reopen()
 	w.write([]*seriesT{mkSeries("m", 4, "host", "d")})
 	got, err = w.uids("m", "host = 'a'")
@@ -189,9 +189,11 @@ func TestRegression_CommaInGroupingTagValue(t *testing.T) {
 		fmt.Sprintf("series host='a,b' and host='c', group by host returns %q: the series whose value contains a comma is gone", got))
 }
 
-// A flush while a memory store is empty leaves an empty, non-nil immutable store behind; every
-// later PrepareFlush is a no-op and nothing written afterwards is ever persisted (found and
-// repaired under C09; C10's histories need the repair for every state after a restart).
+// A flush while a memory store is empty left an empty, non-nil immutable store behind; every later
+// PrepareFlush was a no-op and nothing written afterwards was ever persisted (found under C09,
+// repaired in /repo by 3940569; C10's histories rely on the repair for every state after a restart).
+const sigWedge = "C10/flush-of-empty-memory-store-wedges-later-flushes"
+
 func TestRegression_FlushOfEmptyStoreWedgesLaterFlushes(t *testing.T) {
 	w := newWorld(t, []models.ShardID{0}, 1)
 	defer w.close()
